@@ -686,5 +686,11 @@ def shrink(c):
             yield dict(c, drop=[x for x in c['drop'] if x != d])
 
 
+def extra_obligations(work):
+    # T-int: the integer helpers this model mirrors, re-translated from the current source
+    import translate_int
+    return translate_int.obligations(work, translate_int.FOR['C04'])
+
+
 if __name__ == '__main__':
     sys.exit(common.main(sys.modules[__name__]))
